@@ -98,7 +98,19 @@ def _replay(th: Any, t: Any) -> Any:
     return th(it)
 
 
-def h_prove(ctx: Any, n: int, prof: str, replay: bool = False, twin: bool = False) -> None:
+def _warm_formulas() -> list:
+    from proof_generation import pattern as P
+
+    a, b = P.MetaVar(0), P.MetaVar(1)
+    return [
+        P.neg(P._and(a, P._and(P._or(P.neg(a), b), P.neg(b)))),  # tautology whose refutation needs resolution steps
+        P._or(a, P.neg(a)),
+        P._and(P._or(a, b), P._and(P.neg(a), P.neg(b))),  # unsatisfiable
+        P.Implies(a, b),  # contingent
+    ]
+
+
+def h_prove(ctx: Any, n: int, prof: str, replay: bool = False, history: bool = False, twin: bool = False) -> None:
     from proof_generation import pattern as P
     from proof_generation.tautology import Tautology
 
@@ -112,6 +124,17 @@ def h_prove(ctx: Any, n: int, prof: str, replay: bool = False, twin: bool = Fals
     if twin:
         ctx.violation('TWIN')
     t = Tautology()
+    if history:
+        # one prover object is asked several questions: the formula itself (twice in all), its negation and four fixed
+        # formulas come first; their answers are thrown away
+        ws = [f, P.neg(f)] + _warm_formulas()
+        if ctx.choose(2, 'earlier questions: the formula itself first / last') == 1:
+            ws = ws[2:] + ws[:2]
+        for w in ws:
+            try:
+                t.prove_tautology(w)
+            except Exception:
+                ctx.count('warmup_raised')
     try:
         res = t.prove_tautology(f)
     except Exception as e:
@@ -285,7 +308,7 @@ def _clauses_universe(nvars: int, maxlen: int) -> list:
     return out
 
 
-def h_resolution(ctx: Any, nclauses: int, nvars: int, maxlen: int, replay: bool = False, twin: bool = False) -> None:
+def h_resolution(ctx: Any, nclauses: int, nvars: int, maxlen: int, replay: bool = False, history: bool = False, twin: bool = False) -> None:
     from proof_generation import pattern as P
     from proof_generation.tautology import Tautology, clause_conjunctionto_pattern
 
@@ -299,6 +322,15 @@ def h_resolution(ctx: Any, nclauses: int, nvars: int, maxlen: int, replay: bool 
     if twin:
         ctx.violation('TWIN')
     t = Tautology()
+    if history:
+        wl = [[list(c) for c in clauses], [[1], [-1]], [[1, 2], [-1], [-2]], [[1, -1]], [[2], [-2, 1], [-1]]]
+        if ctx.choose(2, 'earlier questions: the clause list itself first / last') == 1:
+            wl = wl[1:] + wl[:1]
+        for w in wl:
+            try:
+                t.start_resolution_algorithm([list(c) for c in w])
+            except Exception:
+                ctx.count('warmup_raised')
     try:
         res = t.start_resolution_algorithm([list(c) for c in clauses])
     except Exception as e:
@@ -411,6 +443,8 @@ def levels(tier: str) -> list[dict]:
     L: list[dict] = []
     for n in ([1, 2, 3, 4] if q else [1, 2, 3, 4, 5, 6]):
         L.append(dict(label=f'prove/prop2/n={n}', module=M, fn='h_prove', kwargs=dict(n=n, prof='prop2', replay=(n <= (3 if q else 4))), budget_s=bud, required=n <= 4, twin=(n == 2)))
+    for n in ([1, 2, 3] if q else [1, 2, 3, 4]):
+        L.append(dict(label=f'prove/after-other-questions-on-the-same-prover/prop2/n={n}', module=M, fn='h_prove', kwargs=dict(n=n, prof='prop2', replay=(n <= 2), history=True), budget_s=bud, required=n <= 3, twin=False))
     for n in ([3, 5] if q else [3, 5, 7]):
         L.append(dict(label=f'prove/imp2/n={n}', module=M, fn='h_prove', kwargs=dict(n=n, prof='imp2', replay=(n <= 3)), budget_s=bud, required=n <= 5, twin=False))
     if not q:
@@ -424,8 +458,10 @@ def levels(tier: str) -> list[dict]:
             L.append(dict(label=f'stage/{stage}/leaves={lv},vars={nv}', module=M, fn='h_stage', kwargs=dict(stage=stage, leaves=lv, nvars=nv), budget_s=bud, required=lv <= 3, twin=(lv == 2 and stage == 'to_cnf')))
     for mk, mm in ([(4, 4)] if q else [(4, 4), (5, 3)]):
         L.append(dict(label=f'stage/to_clauses/nested-families/clauses<={mk},literals<={mm}', module=M, fn='h_clauses_family', kwargs=dict(maxk=mk, maxm=mm, quick=q), budget_s=bud, required=True, twin=False))
-    for nc, nv, ml in ([(1, 2, 2), (2, 2, 2), (3, 2, 2), (2, 3, 2)] if q else [(1, 3, 3), (2, 3, 3), (3, 2, 2), (3, 3, 2), (4, 2, 2)]):
-        L.append(dict(label=f'resolution/clauses={nc},vars={nv},len<={ml}', module=M, fn='h_resolution', kwargs=dict(nclauses=nc, nvars=nv, maxlen=ml, replay=(nc <= 2 and nv <= 2)), budget_s=bud, required=nc <= 3 and nv <= 2, twin=(nc == 2 and nv == 2)))
+    for nc, nv, ml in ([(1, 2, 2), (2, 2, 2)] if q else [(1, 2, 2), (2, 2, 2), (3, 2, 2)]):
+        L.append(dict(label=f'resolution/after-other-clause-lists-on-the-same-prover/clauses={nc},vars={nv},len<={ml}', module=M, fn='h_resolution', kwargs=dict(nclauses=nc, nvars=nv, maxlen=ml, replay=(nc <= 1), history=True), budget_s=bud, required=nc <= 2, twin=False))
+    for nc, nv, ml in ([(1, 2, 2), (2, 2, 2), (3, 2, 2), (2, 3, 2), (4, 2, 2)] if q else [(1, 3, 3), (2, 3, 3), (3, 2, 2), (3, 3, 2), (4, 2, 2)]):
+        L.append(dict(label=f'resolution/clauses={nc},vars={nv},len<={ml}', module=M, fn='h_resolution', kwargs=dict(nclauses=nc, nvars=nv, maxlen=ml, replay=(nc <= 2 and nv <= 2)), budget_s=bud, required=nc <= 4 and nv <= 2, twin=(nc == 2 and nv == 2)))
     return L
 
 
